@@ -156,6 +156,10 @@ func gen(g *vh.Gen) {
 	g.Emit("lifet", "o0:P,p0:pass,k,DP,b0:1700,DP,f0,DP")
 	g.Emit("lifet", "o0:S,p0:helo,k,DS,b0:1700,DS,f0,DS")
 	g.Emit("lifet", "o0:P,p0:dele,k,b0:1500,DP,b0:600,DP,f0,DP")
+	// a permanent Accept error ends the accept loop (reported on Notify) while sessions are open: they finish, shutdown works
+	g.Emit("life", "o0:S,p0:data,ES,k,DS,f0,DS")
+	g.Emit("life", "o0:P,p0:dele,o1:S,p1:helo,EP,ES,k,DP,f0,DP,DS,f1,DS")
+	g.Emit("life", "ES,EP,k,DS,DP")
 	// POP3 with STLS available: a session upgrades before / after shutdown was requested and completes its dialogue
 	g.Emit("stls", "o0:P,k,t0,p0:dele,DP,f0,DP")
 	g.Emit("stls", "o0:P,t0,k,p0:dele,f0,DP")
